@@ -105,6 +105,7 @@ type tsType struct {
 type tsParser struct {
 	toks []string
 	pos  int
+	dups []string // property names written twice in one object type
 }
 
 func tsIdentByte(c byte) bool {
@@ -236,9 +237,20 @@ func (p *tsParser) primary() *tsType {
 				optional = true
 			}
 			p.expect(":")
-			o.keys = append(o.keys, k)
-			o.opt = append(o.opt, optional)
-			o.elems = append(o.elems, p.union())
+			t := p.union()
+			again := false
+			for i := range o.keys {
+				if o.keys[i] == k { // written twice (an error for tsc); a reader keeping one type per name keeps the last
+					again = true
+					p.dups = append(p.dups, k)
+					o.opt[i], o.elems[i] = optional, t
+				}
+			}
+			if !again {
+				o.keys = append(o.keys, k)
+				o.opt = append(o.opt, optional)
+				o.elems = append(o.elems, t)
+			}
 			if p.peek() == "," || p.peek() == ";" {
 				p.pos++
 			}
@@ -279,6 +291,7 @@ type tsFile struct {
 	types  map[string]*tsType // interfaces and aliases
 	consts map[string]*tsType // constant tables (object of literals)
 	twice  []string
+	dups   []string // property names written twice in one interface / object type
 }
 
 func tsParse(text string) *tsFile {
@@ -313,6 +326,7 @@ func tsParse(text string) *tsFile {
 			f.consts[name] = p.primary()
 		}
 	}
+	f.dups = p.dups
 	return f
 }
 
